@@ -2,6 +2,8 @@ package main
 
 import (
 	"fmt"
+	"sort"
+	"strings"
 
 	p "github.com/datastax/go-cassandra-native-protocol/primitive"
 
@@ -111,4 +113,87 @@ func checkVersions(c *vlib.Check, evals *int64) {
 		}
 	}
 	c.Set("capability_cells", len(caps)*len(versions))
+}
+
+// checkVersionLists: the helpers returning lists of versions are exercised as HISTORIES — every
+// ordered pair of calls, each result compared with the list derived from the declared versions and
+// then overwritten by the caller (a returned slice belongs to the caller) — and after every pair the
+// support predicates are re-evaluated. A helper that hands out or filters in place a shared table
+// corrupts what IsSupported consults; a single call on a fresh process never shows it.
+func checkVersionLists(c *vlib.Check, evals *int64) {
+	type op struct {
+		name string
+		call func() []p.ProtocolVersion
+		want []p.ProtocolVersion
+	}
+	filter := func(f func(p.ProtocolVersion) bool) []p.ProtocolVersion {
+		var out []p.ProtocolVersion
+		for _, v := range versions {
+			if f(v) {
+				out = append(out, v)
+			}
+		}
+		return out
+	}
+	isDse := func(v p.ProtocolVersion) bool { return v == p.ProtocolVersionDse1 || v == p.ProtocolVersionDse2 }
+	ops := []op{
+		{"SupportedProtocolVersions", p.SupportedProtocolVersions, filter(func(p.ProtocolVersion) bool { return true })},
+		{"SupportedOssProtocolVersions", p.SupportedOssProtocolVersions, filter(func(v p.ProtocolVersion) bool { return !isDse(v) })},
+		{"SupportedDseProtocolVersions", p.SupportedDseProtocolVersions, filter(isDse)},
+		{"SupportedBetaProtocolVersions", p.SupportedBetaProtocolVersions, nil},
+		{"SupportedNonBetaProtocolVersions", p.SupportedNonBetaProtocolVersions, filter(func(p.ProtocolVersion) bool { return true })},
+	}
+	for _, v := range versions {
+		v := v
+		ops = append(ops,
+			op{fmt.Sprintf("SupportedProtocolVersionsGreaterThanOrEqualTo(%v)", v), func() []p.ProtocolVersion { return p.SupportedProtocolVersionsGreaterThanOrEqualTo(v) }, filter(func(w p.ProtocolVersion) bool { return w >= v })},
+			op{fmt.Sprintf("SupportedProtocolVersionsGreaterThan(%v)", v), func() []p.ProtocolVersion { return p.SupportedProtocolVersionsGreaterThan(v) }, filter(func(w p.ProtocolVersion) bool { return w > v })},
+			op{fmt.Sprintf("SupportedProtocolVersionsLesserThanOrEqualTo(%v)", v), func() []p.ProtocolVersion { return p.SupportedProtocolVersionsLesserThanOrEqualTo(v) }, filter(func(w p.ProtocolVersion) bool { return w <= v })},
+			op{fmt.Sprintf("SupportedProtocolVersionsLesserThan(%v)", v), func() []p.ProtocolVersion { return p.SupportedProtocolVersionsLesserThan(v) }, filter(func(w p.ProtocolVersion) bool { return w < v })},
+		)
+	}
+	same := func(a, b []p.ProtocolVersion) bool {
+		x := append([]p.ProtocolVersion{}, a...)
+		y := append([]p.ProtocolVersion{}, b...)
+		sort.Slice(x, func(i, j int) bool { return x[i] < x[j] })
+		sort.Slice(y, func(i, j int) bool { return y[i] < y[j] })
+		if len(x) != len(y) {
+			return false
+		}
+		for i := range x {
+			if x[i] != y[i] {
+				return false
+			}
+		}
+		return true
+	}
+	reported := map[string]bool{}
+	step := func(o op, history string) {
+		*evals++
+		got := o.call()
+		if !same(got, o.want) && !reported[o.name] {
+			reported[o.name] = true
+			c.Violation(map[string]string{"kind": "version-list", "helper": strings.SplitN(o.name, "(", 2)[0]}, fmt.Sprintf("after %s: %s returns %v, the declared versions give %v", history, o.name, got, o.want), history)
+		}
+		for i := range got {
+			got[i] = 0xEE // the caller owns the returned slice
+		}
+	}
+	pairs := 0
+	for _, a := range ops {
+		for _, b := range ops {
+			h := "[" + a.name + ", scribble, " + b.name + ", scribble]"
+			step(a, "a fresh call")
+			step(b, "["+a.name+", scribble]")
+			pairs++
+			for _, v := range versions {
+				*evals++
+				if (!v.IsSupported() || p.CheckSupportedProtocolVersion(v) != nil) && !reported["supported/"+v.String()] {
+					reported["supported/"+v.String()] = true
+					c.Violation(map[string]string{"kind": "declared-version-unsupported", "version": v.String()}, fmt.Sprintf("after the calls %s the declared version %v is no longer supported (IsSupported=%v)", h, v, v.IsSupported()), h)
+				}
+			}
+		}
+	}
+	c.Set("version_list_histories", pairs)
 }
